@@ -248,8 +248,13 @@ def build_chm(entries, leaves, style="set", wrap=None, falses=()):
             else:
                 chm = chm | ChoiceMap.choice(wrapv(v))
     for a, junk, traced in falses:
-        flag = jnp.asarray(False) if traced else False
-        m = Mask(junk, flag)
+        if traced == "shadow":
+            # a valid value OR-ed in *behind* an already constrained address: the
+            # earlier (left) operand wins, whatever the encoding of its flag
+            m = junk
+        else:
+            flag = jnp.asarray(False) if traced else False
+            m = Mask(junk, flag)
         if a:
             chm = chm | C[_addr_comps(a)].set(m)
         else:
@@ -733,6 +738,15 @@ class Session:
         if "enc:mask-true-traced" in perts:
             wrap = "mask-true-traced"
             self.fire("enc:mask-true-traced")
+        if wrap == "mask-true-traced" and cons and self.script.get("or_shadow"):
+            import random
+
+            r = random.Random(key_n + 1)
+            for a, _ in cons[:3]:
+                leaf = self.cons.get(tuple(a))
+                if leaf is not None and r.random() < 0.9:
+                    falses.append((tuple(a), leaf_to_jax(leaf, _junk_value(leaf)), "shadow"))
+                    self.probe("enc:or-shadow")
         if "enc:mask-false" in perts:
             have = {tuple(a) for a, _ in cons}
             free = [
